@@ -60,6 +60,18 @@ func (s *Session) EnsureValid() error {
 		return fmt.Errorf("invalid beta-specific configuration: %w", err)
 	}
 
+	// Ensure that the effective (merged) endpoint configurations are valid.
+	// Endpoint-specific configurations are validated above without knowledge
+	// of the session configuration, so settings whose validity depends on it
+	// (e.g. a default file mode, which depends on the permissions mode) can
+	// only be checked fully after merging. Endpoints validate (and rely on the
+	// validity of) the merged configurations.
+	if err := MergeConfigurations(s.Configuration, s.ConfigurationAlpha).EnsureValid(false); err != nil {
+		return fmt.Errorf("invalid effective alpha configuration: %w", err)
+	} else if err = MergeConfigurations(s.Configuration, s.ConfigurationBeta).EnsureValid(false); err != nil {
+		return fmt.Errorf("invalid effective beta configuration: %w", err)
+	}
+
 	// Validate the session name.
 	if err := selection.EnsureNameValid(s.Name); err != nil {
 		return fmt.Errorf("invalid session name: %w", err)
